@@ -35,6 +35,61 @@ func (c *Ctx) skelD(v ssa.Value, e *env, depth int) []Seg {
 		return []Seg{{Lit: s}}
 	}
 	switch x := rv.(type) {
+	case *ssa.Convert:
+		// string(op) of a string-kinded constant (a named string type holding SQL text)
+		if isStringType(x.Type()) {
+			if b, ok := x.X.Type().Underlying().(*types.Basic); ok && b.Info()&types.IsString != 0 {
+				return c.skelD(x.X, e, depth+1)
+			}
+		}
+	case *ssa.ChangeType:
+		if isStringType(x.Type()) {
+			if b, ok := x.X.Type().Underlying().(*types.Basic); ok && b.Info()&types.IsString != 0 {
+				return c.skelD(x.X, e, depth+1)
+			}
+		}
+	case *ssa.UnOp:
+		// the same through a local copy of the entry: ops := table[k]; … ops.f
+		if fa, ok := x.X.(*ssa.FieldAddr); ok && x.Op == token.MUL {
+			if al, ok := fa.X.(*ssa.Alloc); ok && al.Referrers() != nil {
+				var st *ssa.Store
+				n := 0
+				for _, ref := range *al.Referrers() {
+					if s2, ok := ref.(*ssa.Store); ok && s2.Addr == ssa.Value(al) {
+						st, n = s2, n+1
+					}
+				}
+				if n == 1 {
+					if lk, ok := c.resolve(st.Val, e).(*ssa.Lookup); ok && !lk.CommaOk {
+						if segs, ok := c.tableFieldSkel(lk, fieldName(fa.X.Type(), fa.Field), e, depth); ok {
+							return segs
+						}
+					}
+				}
+			}
+		}
+	case *ssa.Field:
+		// a string field of an entry of a package-level map of structs, looked up with a key that is constant on
+		// this path (operator words kept in a small read-only table)
+		if lk, ok := c.resolve(x.X, e).(*ssa.Lookup); ok && !lk.CommaOk {
+			if segs, ok := c.tableFieldSkel(lk, fieldName(x.X.Type(), x.Field), e, depth); ok {
+				return segs
+			}
+		}
+		if lk, ok := c.resolve(x.X, e).(*ssa.Lookup); ok && !lk.CommaOk && false {
+			if g := c.globalBehind(lk.X, e); g != nil {
+				if k, ok := c.resolve(lk.Index, e).(*ssa.Const); ok {
+					tb := c.readTable(g.Pkg.Pkg.Path(), g.Name())
+					if tb.Err == "" && c.onlyInitWrites(g) {
+						if te := tb.byKey()[c.key(k, nil)]; te != nil {
+							if fv, ok := structLiteralFields(te.Val)[fieldName(x.X.Type(), x.Field)]; ok {
+								return c.skelD(fv, nil, depth+1)
+							}
+						}
+					}
+				}
+			}
+		}
 	case *ssa.BinOp:
 		if x.Op == token.ADD && isStringType(x.Type()) {
 			return append(c.skelD(x.X, e, depth+1), c.skelD(x.Y, e, depth+1)...)
@@ -77,6 +132,15 @@ func (c *Ctx) skelD(v ssa.Value, e *env, depth int) []Seg {
 		}
 		// the strconv spellings of the fmt verbs
 		switch calleeFullName(call) {
+		case "fmt.Sprint":
+			// one operand: what %v prints
+			if ops, ok := c.sliceLiteral(call.Call.Args[0], e); ok && len(ops) == 1 {
+				inner := ops[0]
+				if mi, ok := inner.(*ssa.MakeInterface); ok {
+					inner = mi.X
+				}
+				return []Seg{{Hole: c.key(inner, e), Verb: "%v", Val: inner}}
+			}
 		case "strconv.Itoa":
 			return []Seg{{Hole: c.key(call.Call.Args[0], e), Verb: "%d", Val: call.Call.Args[0]}}
 		case "strconv.FormatInt":
@@ -229,6 +293,19 @@ func (c *Ctx) rewriteOfE(v ssa.Value, e *env) (inner ssa.Value, ie *env, desc st
 			break
 		}
 		name := calleeFullName(call)
+		if name == "strings.Replace" && len(call.Call.Args) == 4 {
+			// strings.Replace(s, old, new, n) with n < 0 is ReplaceAll
+			if n, ok := constIntVal(c.resolve(call.Call.Args[3], ce)); ok && n < 0 {
+				a, okA := constStringVal(c.resolve(call.Call.Args[1], ce))
+				b, okB := constStringVal(c.resolve(call.Call.Args[2], ce))
+				if !okA || !okB {
+					return nil, nil, "", false
+				}
+				pairs = append([][2]string{{a, b}}, pairs...)
+				cur, ce = c.resolveE(call.Call.Args[0], ce)
+				continue
+			}
+		}
 		if name == "strings.ReplaceAll" && len(call.Call.Args) == 3 {
 			a, okA := constStringVal(c.resolve(call.Call.Args[1], ce))
 			b, okB := constStringVal(c.resolve(call.Call.Args[2], ce))
@@ -403,4 +480,30 @@ func holeCount(segs []Seg, key string) int {
 		}
 	}
 	return n
+}
+
+// tableFieldSkel: field f of table[k] for a package-level map of structs written only by the initialiser and a
+// key that is a constant under e.
+func (c *Ctx) tableFieldSkel(lk *ssa.Lookup, f string, e *env, depth int) ([]Seg, bool) {
+	g := c.globalBehind(lk.X, e)
+	if g == nil {
+		return nil, false
+	}
+	k, ok := c.resolve(lk.Index, e).(*ssa.Const)
+	if !ok {
+		return nil, false
+	}
+	tb := c.readTable(g.Pkg.Pkg.Path(), g.Name())
+	if tb.Err != "" || !c.onlyInitWrites(g) {
+		return nil, false
+	}
+	te := tb.byKey()[c.key(k, nil)]
+	if te == nil {
+		return nil, false
+	}
+	fv, ok := structLiteralFields(te.Val)[f]
+	if !ok {
+		return nil, false
+	}
+	return c.skelD(fv, nil, depth+1), true
 }
